@@ -343,6 +343,18 @@ def build(case):
         roles = case["roles"]
         for i, r in enumerate(roles):
             sc.add_objects(scen.rand_obstacle(rng, 500 + i, role=r, uncertain=unc))
+        if rng.random() < 0.35:
+            # the memory layout the XML reader produces: laterally adjacent lanelets hold ONE array object for their
+            # common boundary, and a stop line given without points takes the last boundary vertices (views, no copy)
+            from commonroad.scenario.lanelet import LineMarking, StopLine
+            net = sc.lanelet_network
+            for la in net.lanelets:
+                lb = net.find_lanelet_by_id(la.adj_left) if la.adj_left is not None else None
+                if lb is not None and la.adj_left_same_direction and lb.right_vertices.shape == la.left_vertices.shape \
+                        and np.array_equal(lb.right_vertices, la.left_vertices):
+                    lb.right_vertices = la.left_vertices
+            for la in net.lanelets:
+                la.stop_line = StopLine(la.left_vertices[-1], la.right_vertices[-1], LineMarking.SOLID)
         return sc
     if k == "ppset":
         return _ppset(rng)
